@@ -117,13 +117,21 @@ BASE_EXCEPTION_KINDS = [
 
 
 def make_value(kind: str):
+    if kind == "exc-instance":
+        # an error that was collected, not raised (gather(return_exceptions=True))
+        return LookupError("collected")
+    if kind == "base-exc-instance":
+        return SystemExit(7)
+    if kind == "exc-class":
+        return ValueError
     return {
         "0": 0, "0.0": 0.0, "False": False, "''": "", "[]": [], "()": (), "1": 1,
         "'x'": "x", "object": object(), "None": None, "{}": {},
     }[kind]
 
 
-VALUE_KINDS = ["0", "0.0", "False", "''", "[]", "()", "1", "'x'", "object"]
+VALUE_KINDS = ["0", "0.0", "False", "''", "[]", "()", "1", "'x'", "object", "exc-instance",
+               "exc-class"]
 
 
 class Kit:
